@@ -131,6 +131,12 @@ def _eval_one(args):
         res = {"fails": [], "harness_error": f"{type(e).__name__}: {e}\n{traceback.format_exc()[-3000:]}"}
     except Exception as e:  # an exception that escaped outside a lib() block: harness bug
         res = {"fails": [], "harness_error": f"{type(e).__name__}: {e}\n{traceback.format_exc()[-3000:]}"}
+    except BaseException as e:
+        if type(e).__name__ != "Runaway":
+            raise
+        # the code under test never stopped drawing random numbers under the scripted stream (a redraw-until loop the
+        # stream cannot satisfy): an observation about the library, reported as a violation of its own kind
+        res = {"fails": [{"key": f"{evname}/does-not-terminate-under-the-scripted-random-stream", "what": str(e)}]}
     res["case"] = case
     res["evaluator"] = evname
     res["t"] = time.time() - t0
